@@ -298,6 +298,20 @@ fn feed_snapshot(ctx: &mut Ctx, pools: &mut Pools, ints: &[i32], origin: &str, a
         Ok(Err(e)) => ctx.seen("snapshot_errors", &format!("{:?}", e)),
         Ok(Ok(())) => {
             ctx.count("snapshots_accepted", 1);
+            // the limits are on what is accepted, whatever the route
+            let n_items = snap.items().count();
+            let mut wbuf = Vec::new();
+            let mut out = vec![0i32; 40_000];
+            let ser = catch(|| snap.write_to_ints(&mut wbuf, &mut out).map(|s| s.len()).ok());
+            let ser_bytes = ser.as_ref().ok().and_then(|x| *x).map(|n| n * 4);
+            if let Some(b) = ser_bytes {
+                ctx.max("max_accepted_snapshot_bytes", b as u64);
+            }
+            let total_items = ser.as_ref().ok().and_then(|x| *x).map(|_| out[1] as usize).unwrap_or(n_items);
+            ctx.max("max_accepted_snapshot_items", total_items as u64);
+            if total_items > 1024 || ser_bytes.map(|b| b > 65536).unwrap_or(false) {
+                ctx.violation("limit-not-enforced", site, if total_items > 1024 { "more-than-1024-items" } else { "more-than-64KiB" }, json!({"items": total_items, "bytes": ser_bytes, "origin": origin}), case.clone());
+            }
             if origin != "valid" {
                 ctx.count("corrupted_snapshots_accepted", 1);
             }
@@ -421,7 +435,7 @@ fn main() {
     ctx.arm("c11", 1800.0);
     let n = ctx.volume(8_000, 300_000, 30, 2_000);
     ctx.run_cases("snapshots", n, |ctx, _i, rng| {
-        let (ints, origin): (Vec<i32>, &str) = match rng.below(10) {
+        let (ints, origin): (Vec<i32>, &str) = match rng.below(11) {
             0 => {
                 let l = rng.range(0, 40) as usize;
                 ((0..l).map(|_| rng.edgy_i32()).collect(), "random-words")
@@ -429,6 +443,26 @@ fn main() {
             1 => {
                 let m = valid_snapshot(rng);
                 (snap_ints(&m), "valid")
+            }
+            10 => {
+                // snapshots sized exactly around the 64 KiB / 1024-item limits
+                let mut m = Model::new();
+                if rng.bool() {
+                    let target_bytes = (65536i64 + *rng.pick(&[-16i64, -8, -4, 0, 4, 8, 12, 16])) as usize;
+                    let n = *rng.pick(&[1usize, 2, 7, 100]);
+                    // bytes = 4 * (2 + 2n + words)
+                    let words = target_bytes / 4 - 2 - 2 * n;
+                    for i in 0..n {
+                        let w = if i + 1 == n { words - (words / n) * (n - 1) } else { words / n };
+                        m.insert((100, i as u16), vec![i as i32; w]);
+                    }
+                } else {
+                    let n = *rng.pick(&[1023usize, 1024, 1025, 1026]);
+                    for i in 0..n {
+                        m.insert((100 + (i / 600) as u16, (i % 600) as u16), vec![]);
+                    }
+                }
+                (snap_ints(&m), "limit-boundary")
             }
             _ => {
                 let m = valid_snapshot(rng);
